@@ -23,6 +23,7 @@ Contents
 * T6 `C08_disabled_stays_down_*`.
 * simple-one-for-one, closed system, ALL histories: `C08_sofo_no_panic`, `C08_sofo_children_table`,
   `C08_sofo_all_stopped`, `C08_sofo_no_hang`.
+* T7 `C08_every_exit_noticed_once_{ofo,arfo,sofo}` — the glue, all three types, ALL histories.
 * one-for-one, closed system, ALL histories: `C08_ofo_no_panic` (no panic, handleAction terminates).
 * refuted full statements (listed findings) with proved counterexamples:
   `C08_no_panic_arfo_full` (D18), `C08_prescribed_set_full` (D25), `C08_all_stopped_ofo_full` (D26, D27),
@@ -227,6 +228,53 @@ theorem C08_sofo_no_hang (sp : SupSpec) (c : Loop SOFO) (h : SofoReach sp c)
   have hi := sofo_inv h
   obtain ⟨p, hp⟩ := hi.live hrun hsd
   exact ⟨p, ((hi.minv.shut hsd).1 p).mpr hp, (hi.glue.kids_iff p).mp hp⟩
+
+/-! ## T7: the glue, for every state machine and every history -/
+
+theorem boot_glue_noticed {σ : Type} (M : Machine σ) (fuel : Nat) (r : σ × Res) :
+    Glue (boot M fuel r) ∧ Noticed (boot M fuel r) := by
+  have hg : Glue ({ m := r.1 } : Loop σ) := by constructor <;> simp [keys]
+  have hn : Noticed ({ m := r.1 } : Loop σ) := by constructor <;> simp
+  exact ⟨(afterCall_glue M fuel false [] _ r hg).1, afterCall_noticed M fuel false [] _ r hg hn⟩
+
+theorem reach_glue_noticed {σ : Type} (M : Machine σ) (stepf : Loop σ → Label → Option (Loop σ))
+    (hstep : ∀ c l, ∃ fuel, stepf c l = step M fuel c l) (c0 c : Loop σ) (ls : List Label)
+    (h0 : Glue c0 ∧ Noticed c0) (hr : run stepf c0 ls = some c) : Glue c ∧ Noticed c :=
+  run_inv (Inv := fun x => Glue x ∧ Noticed x)
+    (fun s a s' hi hs => by
+      obtain ⟨fuel, hf⟩ := hstep s a
+      rw [hf] at hs
+      exact ⟨step_glue M fuel s s' a hi.1 hs, step_noticed M fuel s s' a hi.1 hi.2 hs⟩) h0 hr
+
+/-- T7 for all three supervisor types, all histories: `Supervisor.children` is exactly the set of spawned children
+that are running or whose exit is still unhandled (so every exit is attributed to the right spec), a child's
+termination is handed to the state machine at most once, a noticed child is gone for good, pids are not reused -/
+theorem C08_every_exit_noticed_once_arfo (sp : SupSpec) (c : Loop ARFO) (h : ∃ ls, run arfoStep (arfoBoot sp) ls = some c) :
+    (∀ p, p ∈ keys c.kids ↔ (p ∈ keys c.alive ∨ p ∈ keys c.inflight)) ∧ c.noticed.Nodup ∧
+    (∀ p, p ∈ c.noticed → p ∉ keys c.alive ∧ p ∉ keys c.inflight) := by
+  obtain ⟨ls, hr⟩ := h
+  have := reach_glue_noticed arfoMachine arfoStep (fun c l => ⟨_, rfl⟩) _ c ls (boot_glue_noticed _ _ _) hr
+  refine ⟨this.1.kids_iff, this.2.nodup, fun p hp => ?_⟩
+  have hk := (this.2.gone p hp).1
+  exact ⟨fun ha => hk ((this.1.kids_iff p).mpr (Or.inl ha)), fun hi => hk ((this.1.kids_iff p).mpr (Or.inr hi))⟩
+
+theorem C08_every_exit_noticed_once_ofo (sp : SupSpec) (c : Loop OFO) (h : ∃ ls, run ofoStep (ofoBoot sp) ls = some c) :
+    (∀ p, p ∈ keys c.kids ↔ (p ∈ keys c.alive ∨ p ∈ keys c.inflight)) ∧ c.noticed.Nodup ∧
+    (∀ p, p ∈ c.noticed → p ∉ keys c.alive ∧ p ∉ keys c.inflight) := by
+  obtain ⟨ls, hr⟩ := h
+  have := reach_glue_noticed ofoMachine ofoStep (fun c l => ⟨_, rfl⟩) _ c ls (boot_glue_noticed _ _ _) hr
+  refine ⟨this.1.kids_iff, this.2.nodup, fun p hp => ?_⟩
+  have hk := (this.2.gone p hp).1
+  exact ⟨fun ha => hk ((this.1.kids_iff p).mpr (Or.inl ha)), fun hi => hk ((this.1.kids_iff p).mpr (Or.inr hi))⟩
+
+theorem C08_every_exit_noticed_once_sofo (sp : SupSpec) (c : Loop SOFO) (h : SofoReach sp c) :
+    (∀ p, p ∈ keys c.kids ↔ (p ∈ keys c.alive ∨ p ∈ keys c.inflight)) ∧ c.noticed.Nodup ∧
+    (∀ p, p ∈ c.noticed → p ∉ keys c.alive ∧ p ∉ keys c.inflight) := by
+  obtain ⟨ls, hr⟩ := h
+  have := reach_glue_noticed sofoMachine sofoStep (fun c l => ⟨_, rfl⟩) _ c ls (boot_glue_noticed _ _ _) hr
+  refine ⟨this.1.kids_iff, this.2.nodup, fun p hp => ?_⟩
+  have hk := (this.2.gone p hp).1
+  exact ⟨fun ha => hk ((this.1.kids_iff p).mpr (Or.inl ha)), fun hi => hk ((this.1.kids_iff p).mpr (Or.inr hi))⟩
 
 /-! ## the full statements the current code refutes (listed findings) -/
 
